@@ -964,9 +964,9 @@ SPEC = harness.Spec(
         "float / angle (angle.__rtruediv__) is not generated: no documented meaning",
         "std.qsystem.measure / measure_and_reset are not executable on the installed selene (DESIGN 1.4) and are left out",
     ],
-    shards={"quick": 16, "thorough": 16},
+    shards={"quick": 8, "thorough": 16},
     budget_s={"quick": 90, "thorough": 840},
-    params={"quick": {"n": 256}, "thorough": {"n": 6400}},
+    params={"quick": {"n": 384}, "thorough": {"n": 6400}},
     min_nontrivial=100,
 )
 
